@@ -73,6 +73,15 @@ func genC07Kind(rc *RunCtx, kind int) (*C1, bool) {
 	if need := 2*totalGap(sc.Chunks) + 50*time.Millisecond; sc.ReadTimeout < need {
 		sc.ReadTimeout = need
 	}
+	if !t.Has("cutmode") && len(sc.Chunks) >= 1 && sc.ReadTimeout <= 500*time.Millisecond && t.Chance(1, 8) {
+		// a long silence: the reply completes late, but still clearly inside the read timeout (at 50-93 % of it)
+		for i := range sc.Chunks {
+			sc.Chunks[i].Gap = 0
+		}
+		i := t.Choose(len(sc.Chunks))
+		sc.Chunks[i].Gap = sc.ReadTimeout * time.Duration(50+t.Choose(44)) / 100
+		sc.LongSilence = true
+	}
 	sc.Hooks = t.Chance(1, 8)
 	return sc, true
 }
@@ -85,7 +94,7 @@ func runC07(rc *RunCtx) {
 	}
 	// sometimes a second call follows on the same client; the first response is held across it
 	var sc2 *C1
-	if !rc.Scen.Has("cutmode") && rc.Scen.Chance(1, 5) {
+	if !rc.Scen.Has("cutmode") && !sc.LongSilence && rc.Scen.Chance(1, 5) {
 		if n, ok := genC07Kind(rc, int(sc.Kind)); ok {
 			n.ReadTimeout = sc.ReadTimeout // one client, one configuration
 			if need := 2*totalGap(n.Chunks) + 50*time.Millisecond; sc.ReadTimeout < need {
@@ -146,6 +155,9 @@ func checkC07(rc *RunCtx, sc *C1, out *C1Outcome) {
 	}
 	if hasLong {
 		rc.Probe("empty_reads_between_chunks")
+	}
+	if sc.LongSilence {
+		rc.Probe("long_silence_inside_timeout")
 	}
 	if out.Panic != nil {
 		rc.Violate("panic", base, "panic in %s: %s", out.Panic.Task, out.Panic.Value)
